@@ -39,7 +39,7 @@ func main() {
 	overlay := flag.String("overlay", "", "overlay json {Replace:{virtual:real}}")
 	out := flag.String("out", "", "result json")
 	workers := flag.Int("workers", 8, "parallel workers")
-	solver := flag.String("solver", "z3", "z3 | z3-new | cvc5")
+	solver := flag.String("solver", "z3-new", "z3 | z3-new | cvc5")
 	to := flag.Int("timeout", 20, "solver timeout per query (s)")
 	incTO := flag.Int("inctimeout", 4, "timeout (s) of the incremental solver before a fresh non-incremental process is tried")
 	maxPaths := flag.Int("maxpaths", 200000, "global path budget")
